@@ -109,6 +109,47 @@ def showBool : Bool → String
 def showListWith {α} (f : α → String) (xs : List α) : String :=
   "[" ++ ",".intercalate (xs.map f) ++ "]"
 
+/-- Split an op-sequence case `hdr ; op ; op ...` into trimmed parts. -/
+def splitOps (line : String) : List String :=
+  (line.splitOn ";").map (fun p => p.trimAscii.toString)
+
+/-- Parse `"1,2,3"` (no blanks) as a list of integers; `""` or `"-"` is the empty list. -/
+def parseIntsComma? (s : String) : Option (List Int) :=
+  if s = "" ∨ s = "-" then some [] else (s.splitOn ",").mapM parseInt?
+
+def parseNatsComma? (s : String) : Option (List Nat) :=
+  if s = "" ∨ s = "-" then some [] else (s.splitOn ",").mapM parseNat?
+
+/-- `[1,2,3]`-style rendering without blanks (the harnesses print the same). -/
+def showInts (xs : List Int) : String := showListWith toString xs
+def showNats (xs : List Nat) : String := showListWith toString xs
+
+def showOpt {α} (f : α → String) : Option α → String
+  | none => "none"
+  | some a => "some " ++ f a
+
+def hexDigit? (c : Char) : Option Nat :=
+  if '0' ≤ c ∧ c ≤ '9' then some (c.toNat - '0'.toNat)
+  else if 'a' ≤ c ∧ c ≤ 'f' then some (c.toNat - 'a'.toNat + 10)
+  else if 'A' ≤ c ∧ c ≤ 'F' then some (c.toNat - 'A'.toNat + 10)
+  else none
+
+/-- Parse a hexadecimal token (no `0x` prefix). -/
+def parseHex? (s : String) : Option Nat :=
+  if s.isEmpty then none else
+  s.toList.foldlM (fun acc c => (hexDigit? c).map (fun d => acc * 16 + d)) 0
+
+def hexChar (d : Nat) : Char := if d < 10 then Char.ofNat (48 + d) else Char.ofNat (87 + d)
+
+/-- Render as lower-case hexadecimal, at least `width` digits. -/
+def toHex (n : Nat) (width : Nat := 1) : String :=
+  let rec go (fuel n : Nat) (acc : List Char) : List Char :=
+    match fuel with
+    | 0 => acc
+    | fuel + 1 => if n = 0 then acc else go fuel (n / 16) (hexChar (n % 16) :: acc)
+  let ds := go 64 n []
+  String.ofList (List.replicate (width - ds.length) '0' ++ ds)
+
 /-- One answer line of a driver: raw model result, its spec-level view, and the spec's answer.
     `check` compares the implementation's raw result with `M`, its view with `S`, and insists
     that `V = S` (model and spec agree, which the theorems promise).  `S any` = the property
